@@ -32,12 +32,12 @@ fn floor_len(a: Alg) -> usize {
     std::cmp::max(10, a.native_len() / 2)
 }
 
-struct Keys {
-    lib: Arc<Key>,
-    r: RefKey,
+pub(crate) struct Keys {
+    pub lib: Arc<Key>,
+    pub r: RefKey,
 }
 
-fn gen_key(rng: &mut Rng) -> Keys {
+pub(crate) fn gen_key(rng: &mut Rng) -> Keys {
     let alg = *rng.pick(&Alg::ALL);
     let slen = match rng.below(5) {
         0 => 1,
